@@ -66,7 +66,7 @@ def wigCase (c : Case) : List String :=
   let runs := groupRuns recs
   let names := runs.map (·.1)
   match validate false c (runs.map fun (n, vs) => (n, vs.map fun v => ⟨v.s, v.e⟩)) with
-  | some e => [s!"R err {errClass e}"]
+  | some e => [s!"R err {errClass e}", "OPEN err refused-leftover"]   -- a refused input leaves nothing a reader opens (C14)
   | none =>
     let ips := nat (c.opt "ips" "1024")
     let intVals : List (Option (List Tiler2.Val)) := runs.map fun (_, vs) =>
@@ -83,6 +83,8 @@ def wigCase (c : Case) : List String :=
       let chrom := q.getD 2 ""
       let qs := nat (q.getD 3 "")
       let qe := nat (q.getD 4 "")
+      -- `get_zoom_interval` looks the level up before the chromosome
+      if q.getD 1 "" == "zoom" && !(levels c).contains (levelOf c (q.getD 5 "0")) then s!"A {qi} err Zoom" else
       match names.idxOf? chrom with
       | none => s!"A {qi} err InvalidChromosome"
       | some ci =>
@@ -161,9 +163,9 @@ def bedCase (c : Case) : List String :=
   let runs := groupRuns recs
   let names := runs.map (·.1)
   let autosql : Option (List Nat) := (c.records "AUTOSQL").head?.map fun l => unhex (l.getD 1 "-")
-  if (autosql.getD []).contains 0 then ["R err InvalidInput"] else
+  if (autosql.getD []).contains 0 then ["R err InvalidInput", "OPEN err refused-leftover"] else
   match validate true c (runs.map fun (n, vs) => (n, vs.map fun v => ⟨v.s, v.e⟩)) with
-  | some e => [s!"R err {errClass e}"]
+  | some e => [s!"R err {errClass e}", "OPEN err refused-leftover"]   -- a refused input leaves nothing a reader opens (C14)
   | none =>
     let text := autosql.getD BED3
     let fc := ASN.fieldCount ASN.asciiCC true text
@@ -176,6 +178,8 @@ def bedCase (c : Case) : List String :=
       let chrom := q.getD 2 ""
       let qs := nat (q.getD 3 "")
       let qe := nat (q.getD 4 "")
+      -- `get_zoom_interval` looks the level up before the chromosome
+      if q.getD 1 "" == "zoom" && !(levels c).contains (levelOf c (q.getD 5 "0")) then s!"A {qi} err Zoom" else
       match names.idxOf? chrom with
       | none => s!"A {qi} err InvalidChromosome"
       | some ci =>
